@@ -1,7 +1,7 @@
 use super::error;
 use super::model::{self, AsValue};
 use std::ops::Range;
-use xml_dom::{self as dom, AsExpandedName, Attr, Document, Element, Node};
+use xml_dom::{self as dom, AsExpandedName, AsNode, AsStringValue, Document, Node};
 
 pub type XPathFunc =
     dyn Fn(Vec<model::Value>, dom::XmlNode, &mut model::Context) -> error::Result<model::Value>;
@@ -536,12 +536,24 @@ fn lang(
 ) -> error::Result<model::Value> {
     let name = String::try_from(args.first().unwrap())?;
 
-    let mut n = Some(node);
+    // the language of the context node is given by the xml:lang attribute of the nearest
+    // ancestor-or-self element that has one
+    let mut n = match node {
+        dom::XmlNode::Element(_) => Some(node),
+        _ => super::parent(&node),
+    };
     while let Some(dom::XmlNode::Element(element)) = n {
-        // FIXME: namespace
-        if let Some(attr) = element.get_attribute_node("lang") {
-            if attr.value()? == name {
-                return Ok(model::Value::Boolean(true));
+        for attr in super::attributes(element.as_node()) {
+            if let Some((local_name, Some(prefix), _)) = attr.as_expanded_name()? {
+                if local_name == "lang" && prefix == "xml" {
+                    // equal ignoring case, or a sublanguage: "en" matches "en-US"
+                    let value = attr.as_string_value()?;
+                    let matched = value.len() >= name.len()
+                        && value.is_char_boundary(name.len())
+                        && value[..name.len()].eq_ignore_ascii_case(&name)
+                        && (value.len() == name.len() || value[name.len()..].starts_with('-'));
+                    return Ok(model::Value::Boolean(matched));
+                }
             }
         }
 
